@@ -23,6 +23,8 @@
                               sysPath: [str…] (entries appended so far, normalised, first occurrence only)]}
                  names may contain `..` segments here: the file-system predicate walks them (a `..` needs the
                  directory it leaves to exist) and results are normalised like `Path.resolve()`.
+   resolve.name  {name: ANY string, parent: str|null, sub?: str, cwd, builtin, files, dirs, links?} → {ok: str} | {err: str}
+                 (`getPipelinePathNR`: `f'{name}.yaml'` read the way pathlib reads it)
 -/
 import Lean.Data.Json
 import PypyrModel.Json
@@ -329,6 +331,22 @@ def handle (op : String) (j : Json) : Except String Json := do
   | "chains" =>
     let runs ← (← (← j.getObjVal? "runs").getArr?).toList.mapM runOfJson
     handleChains j runs
+  | "name" =>
+    -- {name: ANY string, parent: str|null, sub?: str, cwd, builtin, files, dirs, links?} → {ok: str} | {err: str}
+    -- `Resolve.getPipelinePathNR`: `.yaml` appended to the name as written (dots, spaces, unicode, `.yaml` already there,
+    -- empty / `.` / `..` segments, trailing slash); the files of `files` may have any name
+    let fs ← fsOfJson j
+    let name ← (← j.getObjVal? "name").getStr?
+    if name.startsWith "//" then throw s!"name outside the domain (pathlib keeps two leading slashes): {name}"
+    let sub ← match j.getObjVal? "sub" with
+      | .error _ => pure ["pipelines"]
+      | .ok v => do
+        let parts := (← v.getStr?).splitOn "/"
+        if parts.any badSeg then throw "sub-directory outside the domain" else pure parts
+    let parent ← optPathDD (← j.getObjVal? "parent")
+    match getPipelinePathNR fs sub name parent with
+    | .ok p => pure (Json.mkObj [("ok", Json.str (pathStr p))])
+    | .error e => pure (Json.mkObj [("err", Json.str e)])
   | "subdir" =>
     -- {cwd, builtin, files, dirs, ops: [["config", "pipes"] | ["import"] | ["lookup", name] | ["child", name]…]}
     -- → [{ok}|{err}] for every lookup / child op (`Resolve.runSub`: where `config.pipelines_subdir` is read)
